@@ -412,7 +412,7 @@ def _chain(I, P, middle, mparams):
 
 
 def spline_modifier(chk, P):
-    fi = P.func("atsim.potentials._modifiers", "spline")
+    fi = F.modifier_ref(P, "spline")
     site = fi.site()
     for keyword, mparams, clsname in (("exp_spline", [], "Exp_Spline"), ("buck4_spline", [Num(ep.sym("rm"))], "Buck4_Spline")):
         I = F.make_interp(P)
@@ -428,7 +428,7 @@ def spline_modifier(chk, P):
         quiet.text = "Exp_Spline positivity shift not taken (checked in O2)"
         I.assumption_fns.append(quiet)
         first, second, third, mrd = _chain(I, P, keyword, mparams)
-        pot = I.run(fi, [ListV([first], "list"), PyObjV(_Builder())])
+        pot = fi.call(I, [ListV([first], "list"), PyObjV(_Builder())])
         if not (isinstance(pot, InstV) and pot.ci.name == "Custom_SplinePotential"):
             raise AnalysisError("spline() returned %r" % (pot,))
         spl = I.getattr(pot, "interpolationFunction")
